@@ -1,0 +1,16 @@
+//go:build verif
+
+package relationtuple
+
+// Verification harness (compiled only with -tags verif, never called by the program):
+// composes the protobuf encoder of a relation query with the decoder that the gRPC
+// handlers use, on a fully symbolic input, so that the query round trip of property C18
+// is a postcondition proved over the real bodies (see verif_contracts.go).
+
+import (
+	"github.com/ory/keto/ketoapi"
+)
+
+func verifRoundTripProtoQuery(x *ketoapi.RelationQuery) *ketoapi.RelationQuery {
+	return (&ketoapi.RelationQuery{}).FromDataProvider(&queryWrapper{x.ToProto()})
+}
